@@ -172,6 +172,10 @@ impl Default for Parser {
 impl BufferParser for Parser {
     #[allow(clippy::single_match)]
     fn print_char(&mut self, buf: &mut Buffer, current_layer: usize, caret: &mut Caret, ch: char) -> EngineResult<CallbackAction> {
+        #[cfg(icy_engine_verif)]
+        let _verif_depth = crate::verif_hooks::enter();
+        #[cfg(icy_engine_verif)]
+        crate::verif_hooks::tick(1);
         match &self.state {
             EngineState::ParseAnsiMusic(_) => {
                 return self.parse_ansi_music(ch);
